@@ -293,6 +293,9 @@ func searchFieldId(p *thrift.BinaryProtocol, id thrift.FieldID) (tt thrift.Type,
 	// if _, err := p.ReadStructBegin(); err != nil {
 	// 	return 0, start, errNode(meta.ErrReadInput, "", err)
 	// }
+	// NOTICE: if the field is not found, start must point to the beginning of THIS struct
+	// (not the root buffer), since SetByPath() inserts the new field there
+	start = p.Read
 	for {
 		_, t, i, err := p.ReadFieldBegin()
 		if err != nil {
